@@ -3,10 +3,43 @@
 import json, os
 V = os.path.dirname(os.path.dirname(os.path.abspath(__file__)))
 
+TB = ('Trusted: Coq 8.16.1 kernel + vm_compute; the hand-written Gallina model under coq/theories (validated against /repo by the correspondence run of this check, not verified); '
+      'tools/extract_conf.py; extraction (ExtrOcamlBasic, ExtrOcamlString) + ocaml/driver.ml; the harness generators and oracles; CPython str/dict/re/urllib/pathlib semantics as modelled (DESIGN.md 8). ')
+
 CLAIMED = {
+ 'C01': dict(
+    text='Theorems for every loadable, well-formed configuration and every string (unbounded length): the model of the code path (whole-template regex with python priority order and "$", canonical check, fallback over all templates; sid_factory) equals the segment-wise specification (first template whose every placeholder pattern accepts its whole segment; forced type for a uri; untyped otherwise; never fails). Instance obligations re-proved on every run from the regenerated configuration (it parses, loads to exactly the regexes/formats/keys the implementation loaded, is well-formed). Differential run of the extracted model against the implementation on vocabulary-driven, mutated, forced-type and junk strings, plus an independent python oracle of the property.',
+    note=TB + 'Strings containing "?" are C04\'s subject. Code points > 255 outside the model.',
+    technique='Coq proof (regex matcher soundness/completeness/uniqueness, induction over templates) + generated-instance obligations + correspondence',
+    design='6 C01'),
+ 'C02': dict(
+    text='Theorems (all configurations, all naturally typed Sids): the string is the canonical rendering of the fields in template order; Sid(uri) and copy() give back the Sid; Sid(fields=d\') for every permutation d\' of the fields gives back the Sid (guard: no newline in the string); typed Sids are equal iff type and fields are equal; as_query/to_dict round trip on url-safe fields and the query rebuild (guarded). eval(repr()) is covered by correspondence only. Differential run + oracle over the per-key value products of every type incl. search Sids and colliding key sets.',
+    note=TB + 'eval(repr(sid)) is modelled as Sid(uri) for quote-free strings (modelled, not verified). The fields-rebuild theorem is _partial: strings with a newline are covered by correspondence only.',
+    technique='Coq proof + generated-instance obligations + correspondence',
+    design='6 C02'),
+ 'C03': dict(
+    text='Theorems: get_as(k_i) is typed with exactly the first i fields and the i-segment prefix string; parent = get_as(second-to-last key) / itself for one field; parent / last value gives back the Sid; len / keytype / basetype coherence; navigation on untyped Sids returns the empty Sid. The forced-type counterexample to "parent / value" is proved as a _refuted example and excluded by the naturally_typed hypothesis. Differential run over every key of generated Sids of every type + oracle.',
+    note=TB + 'get_as / div theorems carry the guard "no newline in the string" (_partial).',
+    technique='Coq proof (prefix closure + same-key-set-same-sequence wf clauses) + correspondence',
+    design='6 C03'),
+ 'C04': dict(
+    text='Theorems: apply_query never raises SpilException; its result is either untouched with the query kept in the string, or the overlay typed by the key set with a canonical clean string; get_with(**kw) returns the empty Sid or a typed canonical Sid whose fields are exactly the requested overlay (None removes, also when absent). Differential run over typed Sids x 1-3 pair overlays (existing / deeper / foreign / optional / invalid / search / odd / None) and an independent decision-table oracle.',
+    note=TB + 'Percent escapes >= %80 are outside the modelled urllib fragment (Unmodelled).',
+    technique='Coq proof + correspondence + decision-table oracle',
+    design='6 C04'),
+ 'C13': dict(
+    text='Theorems about the cache wrappers as state machines (exact popitem eviction of caching.py at any capacity; functools.lru_cache over-approximated by arbitrary forgetting): every answer after any history equals the pure function, the invariant is kept, nested caches compose; key soundness of the repaired key (positional/keyword spellings bind alike), with the pinned tree\'s key refuted as a theorem; a Sid-object key never hits a plain-string entry. Tie: histories in single implementation processes (colliding pools, all spellings, both path configurations in either order, capacity 2-4, several hash seeds) compared call by call with the pure model, and a sample with fresh processes; a disagreement is replayed in a fresh process to produce the failing history.',
+    note=TB + 'The wiring (which function sits behind which wrapper) is validated by the history correspondence, not derived from the source. Interpreter start-up state is not modelled; fresh-process comparison is sampled.',
+    technique='Coq proof (invariant by induction over call histories) + history correspondence + fresh-process replay',
+    design='6 C13'),
+ 'C14': dict(
+    text='Theorems: == is uri equality, equal Sids have equal repr (hash argument), == with a string is string equality, __lt__ is a strict total order on strings; frame theorem over an explicit object store: no sequence of operations (Sids sharing cached dictionaries, copies handed out, callers mutating every container they hold) changes the fields an existing Sid refers to; the dictionary returned by fields is a fresh object. Tie: pairs incl. same-string Sids of different forced types (==, hash, set, dict, sorted) and mutation histories with re-observation and identity probes on the implementation.',
+    note=TB + 'The object store is a model of aliasing (which containers are shared / copied); python hash() itself is abstracted to a function of repr.',
+    technique='Coq proof (heap invariant by induction over operations) + mutation/identity probes on the implementation',
+    design='6 C14'),
  'C19': dict(
     text='General theorems (Coq, no bound on number of types / keys / levels) about a line-by-line Gallina model of extrapolate_templates and pattern_replacing: explicit types kept in order, no duplicate names or templates, every added entry is a well-named prefix level of an extrapolated type, nothing else, every level covered; tied to spil/conf/util.py by differential runs of the extracted model against the implementation on grammar-generated configurations and on the live configuration.',
-    note='Trusted: Coq kernel + vm_compute; the hand-written model (validated by correspondence, not verified); extraction (ExtrOcamlBasic, ExtrOcamlString) and ocaml/driver.ml; python str.split/replace/join semantics as modelled. Placement (directly after, longest first) is checked by the oracle and correspondence, not yet a theorem.',
+    note=TB + 'Placement (directly after, longest first) is checked by the oracle and correspondence, not yet a theorem.',
     technique='Coq proof by fold invariant over the template list + correspondence (extracted model vs impl)',
     design='6 C19'),
 }
